@@ -14,6 +14,9 @@ import Chewing.Proofs.LayoutComplete_hanyu
 import Chewing.Proofs.LayoutComplete_thl
 import Chewing.Proofs.LayoutComplete_mps2
 import Chewing.Proofs.LayoutUnreachAll
+import Chewing.Proofs.Bisim
+import Chewing.Proofs.LayoutEditor
+import Chewing.Proofs.ReadingsMini
 /-!
 # C14 — Every phonetic layout is sound, and complete for the dictionary's readings
 
@@ -384,6 +387,104 @@ theorem keyboards_surjective {kb : String × KbTables} (hkb : kb ∈ genericKeyb
       exact ⟨c2, e, he, by simpa using h2⟩
     · cases h2
 
+/-! ## The tie: from the exhaustive transition comparison to every key sequence -/
+
+theorem layout_run_eq_runM (L : Layout) : ∀ (ops : List LOp) (c : Nat), L.run c ops = runM L.step c ops := by
+  intro ops
+  induction ops with
+  | nil => intro c; rfl
+  | cons op ops ih =>
+    intro c
+    unfold Layout.run runM
+    cases L.step c op with
+    | none => rfl
+    | some p => simp only [ih]
+
+/-- `bisim_lift` for the layouts.  `impl` stands for the real layout (observed through `read()` = the
+    16-bit code, driven through `clone()`), `S` for the set of states the exhaustive run visited, `I` for the
+    operations it tried from each of them.  If the visited set contains the fresh state and is closed under
+    the implementation's own steps (the BFS work list ran empty) and implementation and model agree on every
+    transition out of it (zero DIFF records), then on EVERY operation list over `I`, of any length, the
+    implementation produces the model's run — so it never panics, every state it goes through (what `read()`
+    returns after `Commit`) is well-formed, and every `Fuzzy(s)` carries a well-formed non-empty `s`. -/
+theorem correspondence_lift {L : Layout} (hL : L ∈ finiteLayouts) (impl : Nat → LOp → PressResult)
+    (S : Nat → Prop) (I : LOp → Prop) (h0 : S clearSyl)
+    (hclosed : ∀ s i o s', S s → I i → impl s i = some (o, s') → S s')
+    (hagree : ∀ s i, S s → I i → impl s i = L.step s i)
+    (ops : List LOp) (hI : ∀ op ∈ ops, I op) :
+    runM impl clearSyl ops = L.run clearSyl ops ∧
+    ∃ tr, runM impl clearSyl ops = some tr ∧
+      ∀ x ∈ tr, S x.2 ∧ WellFormed x.2 ∧ ∀ s, x.1 = .fuzzy s → WellFormed s ∧ s ≠ emptyPattern := by
+  have e := bisim_lift impl L.step S I hclosed hagree ops clearSyl h0 hI
+  rw [← layout_run_eq_runM] at e
+  obtain ⟨tr, htr, hall⟩ := sound_layout hL ops
+  refine ⟨e, tr, by rw [e, htr], fun x hx => ⟨?_, hall x hx⟩⟩
+  exact runM_states impl S I hclosed ops clearSyl tr h0 hI (by rw [e, htr]) x hx
+
+/-- the layout models read exactly one field of a key event (key index for the table-driven layouts and
+    DaChen26, key code for Hsu and ET26): comparing the 63 values of that field covers every key event -/
+theorem press_reads_one_field :
+    (∀ L ∈ [standardL, etL, ibmL, ginyiehL, dc26L], ∀ c k, L.press c k = L.press c (mkKey k.index)) ∧
+    (∀ L ∈ [hsuL, et26L], ∀ c k, L.press c k = L.press c (mkKey k.code)) := by
+  constructor
+  · intro L hL c k
+    simp only [List.mem_cons, List.not_mem_nil, or_false] at hL
+    rcases hL with rfl | rfl | rfl | rfl | rfl <;> rfl
+  · intro L hL c k
+    simp only [List.mem_cons, List.not_mem_nil, or_false] at hL
+    rcases hL with rfl | rfl <;> rfl
+
+/-! ## Stage B: the layouts inside the editor
+
+`Proofs/LayoutEditor.lean`, over the validated editor model (`Model/Editor.lean`, any environment whose
+layout component is one of the layout models): one key in state `EnteringSyllable` changes the pre-edit
+buffer only by inserting the syllable the layout handed over. -/
+
+/-- what the editor inserts is exactly what the layout's `read()` spelled after `Commit` (or the `Fuzzy`
+    payload), it is well-formed and non-empty, and the layout is left in a well-formed state -/
+theorem editor_inserts_what_layout_read {D : Type} {L : Layout} (hL : L ∈ finiteLayouts) (base : Env D Nat)
+    (sh : Shared D Nat) (ev : KeyEvent) (hc : WellFormed sh.syl)
+    (hne : (layoutEnv L base).hasPhrase sh.dict [emptyPattern] sh.options.lookupStrategy = false)
+    (sh' : Shared D Nat) (t : Trans) (h : enteringSyllableNext (layoutEnv L base) sh ev = .ok (sh', t)) :
+    WellFormed sh'.syl ∧
+    (sh'.com = sh.com.clear ∨ sh'.com.inner = sh.com.inner ∨
+      ∃ s com1, WellFormed s ∧ s ≠ emptyPattern ∧
+        HandedOver (layoutStepFor L sh.options.lookupStrategy sh.syl (toKeyEv ev)) s ∧
+        sh.com.insert (.syl s) = .ok com1 ∧ sh'.com.inner = com1.inner) := by
+  obtain ⟨h1, h2⟩ := enteringSyllable_sound (finite_sound hL) base sh ev (wellFormed_iff.mp hc) hne sh' t h
+  refine ⟨wellFormed_iff.mpr h1, ?_⟩
+  rcases h2 with h2 | h2 | ⟨s, com1, hs, hne', hh, hi, hcm⟩
+  · exact Or.inl h2
+  · exact Or.inr (Or.inl h2)
+  · exact Or.inr (Or.inr ⟨s, com1, wellFormed_iff.mpr hs, hne', hh, hi, hcm⟩)
+
+/-! ## Completeness for the built-in fallback dictionary (`data/mini.src`) -/
+
+def CompleteMini (L : Layout) : Prop := ∀ r ∈ miniReadingCodes, Enters L r
+
+theorem complete_mini_of_complete {L : Layout} (h : Complete L) : CompleteMini L :=
+  fun r hr => h r (mini_readings_subset r hr)
+
+theorem complete_mini_table_layouts : ∀ L ∈ [standardL, etL, ibmL, ginyiehL], CompleteMini L := by
+  intro L hL
+  simp only [List.mem_cons, List.not_mem_nil, or_false] at hL
+  rcases hL with rfl | rfl | rfl | rfl
+  · exact complete_mini_of_complete complete_standard
+  · exact complete_mini_of_complete complete_et
+  · exact complete_mini_of_complete complete_ibm
+  · exact complete_mini_of_complete complete_ginyieh
+
+/-- for the other layouts: exactly the F21 readings that also occur in `data/mini.src` are missing -/
+theorem complete_mini_26key_partial :
+    (∀ r ∈ miniReadingCodes, r ∉ hsuGaps → Enters hsuL r) ∧
+    (∀ r ∈ miniReadingCodes, r ∉ et26Gaps → Enters et26L r) ∧
+    (∀ r ∈ miniReadingCodes, r ∉ dc26Gaps → Enters dc26L r) ∧
+    (∀ v, v < 3 → ∀ r ∈ miniReadingCodes, r ∉ pinyinGaps v → PinyinEnters v r) :=
+  ⟨fun r hr => complete_hsu_partial r (mini_readings_subset r hr),
+   fun r hr => complete_et26_partial r (mini_readings_subset r hr),
+   fun r hr => complete_dc26_partial r (mini_readings_subset r hr),
+   fun v hv r hr => complete_pinyin_partial v hv r (mini_readings_subset r hr)⟩
+
 /-! ### non-vacuity -/
 
 example : standardL ∈ finiteLayouts ∧ dc26L ∈ finiteLayouts := by simp [finiteLayouts]
@@ -396,5 +497,41 @@ example : ("dvorak", (genericKeyboards.getD 1 ("", [], [], [])).2) ∈ genericKe
 example : (mapAscii "dvorak_on_qwerty" 113).map (·.unicode) = some 39 := by decide
 /-- a `hasWord` as in `sound_buffer`: membership in the shipped readings -/
 example : (fun c => readingCodes.contains c) emptyPattern = false := readings_no_empty
+
+/-- `correspondence_lift` is not vacuous: the model itself is an implementation satisfying its premises -/
+example (ops : List LOp) : runM hsuL.step clearSyl ops = hsuL.run clearSyl ops :=
+  (correspondence_lift (L := hsuL) (by simp [finiteLayouts]) hsuL.step (fun _ => True) (fun _ => True) trivial
+    (fun _ _ _ _ _ _ _ => trivial) (fun _ _ _ _ => rfl) ops (fun _ _ => trivial)).1
+
+/-- an environment for `editor_inserts_what_layout_read`: the dictionary is the list of syllables that have a
+    word; everything the layout arms do not use is trivial -/
+def wordEnv : Env (List Nat) Nat :=
+  { lookupAll := fun d key _ => match key with
+      | [s] => if d.contains s then [{ text := [19968], freq := 1 }] else []
+      | _ => []
+    userLookupAll := fun _ _ _ => []
+    addPhrase := fun d _ _ => some d
+    updatePhrase := fun d _ _ _ _ => d
+    removePhrase := fun d _ _ => d
+    reopenFlush := fun d => d
+    convert := fun _ _ _ => .ok []
+    estimate := fun _ _ _ => .ok 0
+    keyPress := fun c _ => (.error, c)
+    fuzzyKeyPress := fun c _ => (.error, c)
+    removeLast := fun c => c
+    clearSyl := fun c => c
+    sylIsEmpty := fun _ => true
+    read := fun c => c
+    altSyllables := fun _ _ => [] }
+
+/-- its hypotheses hold for the shipped readings, and the Standard layout in the state `ㄅㄚ` (keys `1 8`)
+    answers Space by handing over `ㄅㄚ`, which the editor inserts -/
+example :
+    (layoutEnv standardL wordEnv).hasPhrase readingCodes [emptyPattern] .standard = false ∧
+    (match enteringSyllableNext (layoutEnv standardL wordEnv)
+        { syl := 1088, dict := readingCodes } { index := 48, code := 48, unicode := 32 } with
+      | .ok (sh', _) => sh'.com.inner.symbols == [.syl 1088] && sh'.syl == clearSyl
+      | _ => false) = true := by
+  decide +kernel
 
 end Chewing.C14
